@@ -66,9 +66,9 @@ def twin_param(rng, p):
     if isinstance(p, int):
         return rng.choice([float(p), sympy.Integer(p)]) if abs(p) < 2 ** 53 else sympy.Integer(p)
     if isinstance(p, float):
-        if p == p and abs(p) < 2 ** 53 and p == int(p) and rng.random() < 0.6:
-            return int(p)
-        return sympy.Float(p) if p == p and abs(p) != float("inf") else p
+        if p == p and abs(p) < 2 ** 53 and p == int(p):  # collides under == and hash
+            return rng.choice([int(p), sympy.Integer(int(p))])
+        return sympy.Float(p) if p == p and abs(p) != float("inf") else p  # collides under == only
     if isinstance(p, sympy.Symbol):
         return twin_symbol(p)
     if isinstance(p, sympy.Expr):
@@ -77,7 +77,7 @@ def twin_param(rng, p):
             s = rng.choice(syms)
             return p.xreplace({s: twin_symbol(s)})
         if p.is_Integer:
-            return int(p)
+            return rng.choice([int(p), float(int(p))]) if abs(p) < 2 ** 53 else int(p)
         if p.is_Float:
             return float(p)
     return p
